@@ -239,21 +239,21 @@ theorem prefixSearch_MapOK (c : Cfg) (src : Str) (pm : List MR) (mp : List (Nat 
 
 /-- What one iteration does to `result` / `unit_is_prefix` / the prefix table:
 (A) a suffix result (with the prefix unit attached when there is one), (B) a prefix-only result, or (C) nothing. -/
-theorem step_cases (c : Cfg) (src : Str) (pm sm : List MR) (nonUnit : List (Nat × Nat)) (st : St) (n : Num)
+theorem stepSticky_cases (c : Cfg) (src : Str) (pm sm : List MR) (nonUnit : List (Nat × Nat)) (st : St) (n : Num)
     (mp : List (Nat × (Nat × Str))) (pu : Option (Nat × Str)) (L : Nat)
     (hmp : prefixSearch c src pm st.mapping n = mp) (hpu : mget mp n.start = pu)
     (hL : maxSuffix c src (n.start + n.len) sm = L) :
-    (step c src pm sm nonUnit st n).mapping = mp ∧
+    (stepSticky c src pm sm nonUnit st n).mapping = mp ∧
     ((L ≠ 0 ∧ (c.isDimension && insideNonUnit nonUnit (suffixER src n L pu).1.start (suffixER src n L pu).1.len) = false ∧
-        (step c src pm sm nonUnit st n).result = st.result ++ [(suffixER src n L pu).1] ∧
-        (step c src pm sm nonUnit st n).flags = st.flags ++ [false] ∧
-        (step c src pm sm nonUnit st n).prefixMatched = (st.prefixMatched || pu.isSome)) ∨
+        (stepSticky c src pm sm nonUnit st n).result = st.result ++ [(suffixER src n L pu).1] ∧
+        (stepSticky c src pm sm nonUnit st n).flags = st.flags ++ [false] ∧
+        (stepSticky c src pm sm nonUnit st n).prefixMatched = (st.prefixMatched || pu.isSome)) ∨
      (L = 0 ∧ st.prefixMatched = false ∧ ∃ p, pu = some p ∧
-        (step c src pm sm nonUnit st n).result = st.result ++ [(prefixOnlyER n.start n p).1] ∧
-        (step c src pm sm nonUnit st n).flags = st.flags ++ [true] ∧
-        (step c src pm sm nonUnit st n).prefixMatched = false) ∨
-     ((step c src pm sm nonUnit st n).result = st.result ∧ (step c src pm sm nonUnit st n).flags = st.flags)) := by
-  unfold step
+        (stepSticky c src pm sm nonUnit st n).result = st.result ++ [(prefixOnlyER n.start n p).1] ∧
+        (stepSticky c src pm sm nonUnit st n).flags = st.flags ++ [true] ∧
+        (stepSticky c src pm sm nonUnit st n).prefixMatched = false) ∨
+     ((stepSticky c src pm sm nonUnit st n).result = st.result ∧ (stepSticky c src pm sm nonUnit st n).flags = st.flags)) := by
+  unfold stepSticky
   simp only [hmp, hpu, hL]
   by_cases h0 : L = 0
   · subst h0
@@ -273,6 +273,28 @@ theorem step_cases (c : Cfg) (src : Str) (pm sm : List MR) (nonUnit : List (Nat 
       simp only [suffixER]
       rcases Bool.eq_false_or_eq_true (c.isDimension && insideNonUnit nonUnit (n.start - off) (n.len + L + off)) with hnu | hnu <;>
         simp [hnu]
+
+/-- The same for the current code (the flag is reset for every number): a prefix-only result is produced whenever the
+number has a prefix unit and no suffix result. -/
+theorem step_cases (c : Cfg) (src : Str) (pm sm : List MR) (nonUnit : List (Nat × Nat)) (st : St) (n : Num)
+    (mp : List (Nat × (Nat × Str))) (pu : Option (Nat × Str)) (L : Nat)
+    (hmp : prefixSearch c src pm st.mapping n = mp) (hpu : mget mp n.start = pu)
+    (hL : maxSuffix c src (n.start + n.len) sm = L) :
+    (step c src pm sm nonUnit st n).mapping = mp ∧
+    ((L ≠ 0 ∧ (c.isDimension && insideNonUnit nonUnit (suffixER src n L pu).1.start (suffixER src n L pu).1.len) = false ∧
+        (step c src pm sm nonUnit st n).result = st.result ++ [(suffixER src n L pu).1] ∧
+        (step c src pm sm nonUnit st n).flags = st.flags ++ [false]) ∨
+     (L = 0 ∧ ∃ p, pu = some p ∧
+        (step c src pm sm nonUnit st n).result = st.result ++ [(prefixOnlyER n.start n p).1] ∧
+        (step c src pm sm nonUnit st n).flags = st.flags ++ [true]) ∨
+     ((step c src pm sm nonUnit st n).result = st.result ∧ (step c src pm sm nonUnit st n).flags = st.flags)) := by
+  have h := stepSticky_cases c src pm sm nonUnit { st with prefixMatched := false } n mp pu L hmp hpu hL
+  unfold step
+  refine ⟨h.1, ?_⟩
+  rcases h.2 with ⟨a, b, c1, d, _⟩ | ⟨a, _, p, hp, c1, d, _⟩ | ⟨a, b⟩
+  · exact Or.inl ⟨a, b, c1, d⟩
+  · exact Or.inr (Or.inl ⟨a, p, hp, c1, d⟩)
+  · exact Or.inr (Or.inr ⟨a, b⟩)
 
 /-! ### what every result of the loop looks like -/
 
@@ -351,7 +373,7 @@ theorem step_inv (c : Cfg) (src : Str) (pm sm : List MR) (nonUnit : List (Nat ×
   obtain ⟨e1, e2⟩ := step_cases c src pm sm nonUnit st n _ _ _ rfl rfl rfl
   have hLin := maxSuffix_inside c src (n.start + n.len) sm hsm hn.1
   refine ⟨by rw [e1]; exact hmp, ?_, ?_⟩
-  · rcases e2 with ⟨_, _, er, _, _⟩ | ⟨_, _, p, hp, er, _, _⟩ | ⟨er, _⟩
+  · rcases e2 with ⟨_, _, er, _⟩ | ⟨_, p, hp, er, _⟩ | ⟨er, _⟩
     · rw [er]
       intro r hr
       rcases List.mem_append.mp hr with hr | hr
@@ -371,7 +393,7 @@ theorem step_inv (c : Cfg) (src : Str) (pm sm : List MR) (nonUnit : List (Nat ×
         have := hmp n.start off unit hp
         exact prefixOnlyER_ok src n off unit hn this.1 this.2.1 this.2.2
     · rw [er]; exact hres
-  · rcases e2 with ⟨_, _, er, ef, _⟩ | ⟨_, _, p, hp, er, ef, _⟩ | ⟨er, ef⟩ <;> rw [er, ef] <;> simp [hfl]
+  · rcases e2 with ⟨_, _, er, ef⟩ | ⟨_, p, hp, er, ef⟩ | ⟨er, ef⟩ <;> rw [er, ef] <;> simp [hfl]
 
 theorem foldl_step_inv (c : Cfg) (src : Str) (pm sm : List MR) (nonUnit : List (Nat × Nat))
     (hsm : ∀ m ∈ sm, m.start + m.len ≤ src.length) (nums : List Num) :
